@@ -489,7 +489,7 @@ func init() {
 		Rule: "case k: terminal width k mod 301 (every width 1..300 and 0 => fallback 80, set with TIOCSWINSZ on a real pseudo-terminal attached to fd 0) x description script {ASCII, Latin-1, Greek, Cyrillic} x {ASCII names, names in the same script}; a random declaration (nested groups, commands with indentation, positional arguments) whose long names (1-40 characters), short names, value names, choices, positional names and descriptions (0-14 words of 1-9 or up to 70 characters, embedded newlines, runs of blanks) are drawn from the script; a random active chain. " +
 			"Layout monitor over the lines of WriteHelp's output: no panic; valid UTF-8; the unique first word of every option/argument description starts in one common column D; continuation lines are indented exactly D; no description line is wider than the terminal when W-D >= 10; the words recovered from the block (line-final '-' elided) equal the original words in order. distinct = (W, D, #rows, chain length).",
 		Assumptions: []string{"single-column scripts only: rune count = display columns (CJK / combining characters excluded)", "description words never end in '-', so a line-final '-' is a hard-break hyphen", "if no pty can be opened the check explores width 80 only and says so (pty_unavailable)"},
-		Technique:   "runtime invariant monitor over generated help text with the terminal width driven through a real pty (TIOCSWINSZ on fd 0); exhaustive width enumeration",
+		Technique:   "runtime invariant monitor over generated help text with the terminal width driven through a real pty (TIOCSWINSZ on fd 0); exhaustive width enumeration; multi-step histories on one parser with direct oracles",
 		LevelText:   "Exploration with exhaustive width enumeration (every width 0..300 at every seed) across scripts and name lengths; the layout invariants are checked on the bytes actually written.",
 		LevelNote:   "Trusted: the pty really controls getTerminalColumns (verified per case by reading the width back); the word-recovery procedure.",
 		DesignRef:   "§4 C17",
